@@ -60,6 +60,8 @@ class Bundle:
         self.mod_name = None
         self.cfg = None
         self.extend_builtin = False
+        self.extend_query = False
+        self.twin_of = None
         self.override_id = False
 
 
@@ -109,24 +111,38 @@ def gen_bundles(tape, seed):
     out = []
     for i in range(nb):
         b = Bundle(i)
-        b.schema = gen_schema(tape, {"max_objects": 3, "max_fields": 4, "subscription_pct": 35, "default_impl_pct": 15}, stream="schema%d" % i)
+        tw = tape.sub("twin")
+        if i >= 1 and tw.chance(35):
+            # the very same SDL text cooked under another schema name, with its own actors: one schema
+            # exposed twice (byte-identical text, so anything keyed on the text is shared if the engine shares it)
+            src = out[tw.draw(i)]
+            b.schema, b.sdl, b.extend_builtin, b.override_id, b.twin_of = src.schema, src.sdl, src.extend_builtin, src.override_id, src.i
+        else:
+            b.twin_of = None
+            b.schema = gen_schema(tape, {"max_objects": 3, "max_fields": 4, "subscription_pct": 35, "default_impl_pct": 15}, stream="schema%d" % i)
         sdl = print_sdl(b.schema)
         # a directive with the same name in every bundle, applied to the first Query field
         first = next(iter(b.schema.t("Query").fields))
-        b.extend_builtin = t.chance(30)
-        b.override_id = t.chance(30)
-        sdl = "directive @mark(b: Int = %d) on FIELD_DEFINITION | SCALAR\n" % i + sdl.replace(
+        eb, oi = t.chance(30), t.chance(30)
+        if b.twin_of is None:
+            b.extend_builtin, b.override_id = eb, oi
+        sdl = "directive @mark(b: Int = %d) on FIELD_DEFINITION | SCALAR | OBJECT\n" % i + sdl.replace(
             "type Query {\n  %s" % first, "type Query {\n  %s" % first, 1)
         lines = sdl.split("\n")
         for li, ln in enumerate(lines):
             if ln.startswith("type Query"):
                 lines[li + 1] = lines[li + 1] + " @mark"
                 break
-        b.sdl = "\n".join(lines)
-        if b.extend_builtin:
-            b.sdl += "\nextend scalar Boolean @mark(b: %d)\n" % (100 + i)
-        if b.override_id:
-            b.sdl += "\nscalar ID\n"
+        if b.twin_of is None:
+            b.sdl = "\n".join(lines)
+            if b.extend_builtin:
+                b.sdl += "\nextend scalar Boolean @mark(b: %d)\n" % (100 + i)
+            if tw.chance(35):
+                # a type extension that carries a directive and a field of its own
+                b.sdl += "\nextend type Query @mark(b: %d) { extraField%d: Int @mark }\n" % (200 + i, i)
+                b.extend_query = True
+            if b.override_id:
+                b.sdl += "\nscalar ID\n"
         b.name = "C17_%d_b%d" % (seed, i)
         b.mod_name = "simv_c17_mod_%d_%d" % (seed, i)
         b.cfg = dict(lc=t.choose([None, True, False]), pc=t.choose([None, True, False]))
@@ -362,6 +378,8 @@ def run_one(seed, preset=None, tier="quick", want_case=False):
     r["probes"] = {"cooks_overlapped": int(overlap[0] >= 2), "registrations_through_module": int(any(in_module[b.i] for b in bundles)),
                    "four_bundles": int(len(bundles) == 4), "subscription_bundle": int(any(b.schema.subscription for b in bundles)),
                    "bundle_extends_builtin_scalar": int(any(b.extend_builtin for b in bundles)),
+                   "same_sdl_text_under_two_names": int(any(b.twin_of is not None for b in bundles)),
+                   "twin_sdl_with_directive_on_extension": int(any(b.twin_of is not None and ("extend type Query @mark" in b.sdl or b.extend_builtin) for b in bundles)),
                    "bundle_overrides_builtin_scalar": int(any(b.override_id for b in bundles)),
                    "override_next_to_plain_bundle": int(any(b.override_id for b in bundles) and any(not b.override_id for b in bundles))}
     if want_case or viol:
